@@ -240,12 +240,10 @@ Section Holds.
 End Holds.
 
 (* ------------------------------------------------------------------ the proved class *)
-(* operations of the proved class: no add_column (its position goes through SQLAlchemy's topological sort), and no
-   alter_column that renames a column to its own key (ignored by the code when the column was renamed before) *)
+(* operations of the proved class: everything but add_column (its position goes through SQLAlchemy's topological sort) *)
 Definition in_class (o:batch_op) : bool :=
   match o with
   | OAddColumn _ _ _ _ => false
-  | OAlterColumn k a => match al_name a with Some n => negb (name_eqb n k) | None => true end
   | _ => true
   end.
 Definition wf_tbl (T:tbl) : bool :=
